@@ -1,18 +1,31 @@
 """C15 — point-in-polygon answers agree with the even-odd rule.
 
 Model: lean/HydroVerif/Model/C15.lean (c_inside: box test, half-open edge rule, pre-test, tolerance guards, toggle;
-wrapper extent and zero initialisation; Grid.cells_inside_polygon); theorems: lean/HydroVerif/Props/C15.lean.
+wrapper extent, nprint conversion, answer-vector guards and zero initialisation; Grid.cells_inside_polygon),
+Model/C15Round.lean (the same model run in ROUNDED arithmetic `Rd K rnd`; `rnd53` = executable binary64 rounding on
+exact rationals; decided hypotheses of the rounding theorems), Model/C15Hist.lean (state machines: the caller's
+arrays / tolerance / answer buffer across calls of points_inside_polygon, Grid objects and their clones across
+queries; memoryless specifications); theorems: lean/HydroVerif/Props/C15.lean.
 Correspondence: `gutils.points_inside_polygon` (rebuilt kernel) against the Float instance of the model, answer
-by answer and bit for bit, for every generated point (also on / near the boundary and for several tolerances);
-the Rat instance of the model and the tolerance-free even-odd specification (right and left ray) are evaluated
-on the same inputs converted exactly and compared with the code for every point farther than the tolerance
-from the boundary; `Grid.cells_inside_polygon` against the model's cell list.
+by answer and bit for bit, for every generated point (also on / near the boundary and for several tolerances,
+negative / infinite / NaN included); the Rat instance of the model and the tolerance-free even-odd specification
+(right and left ray) are evaluated on the same inputs converted exactly and compared with the code for every point
+farther than the tolerance from the boundary; the model in SIMULATED binary64 arithmetic (request `pipr`: every
++ - * / rounded by rnd53 on exact rationals) is compared with the real kernel at EVERY point, together with the
+decided hypotheses of rounded_inside_eq_evenOdd (where they hold: simulated = real = exact even-odd),
+rounded_rectilinear_exact (rectilinear polygons: simulated = real = exact closed-ray rule at every point, boundary
+included) and rounded_abscissa_error; `Grid.cells_inside_polygon` against the model's cell list; every state
+history is ALSO sent as a whole through the stateful models (requests `piphist`, `gridhist`: pipRun / pipAbsRun /
+gridRun) and every outcome, the refused calls by name, and the final content of the caller's buffer are compared.
 Oracle (failing-input search, real code only, independent of the model): exact even-odd rule in rational
 arithmetic (`fractions.Fraction`, scaled to integers) along a randomly chosen rational ray direction that is never
 the code's (+x), applied only to polygons with >= 3 vertices whose non-zero coordinate steps are >= 1e-6 and to
 points whose exact distance to every edge exceeds 1e-6 x polygon size; plus invariance of the code's answers
 under rotating / reversing / closing the vertex list and translating / scaling polygon and points together;
-plus `cells_inside_polygon` = the cells whose centres are inside.
+plus equal answers for two far points joined by a segment that meets no edge (exact integer test);
+plus `cells_inside_polygon` = the cells whose centres are inside. In the history streams the oracle and the model
+judge every call on the values the CALLER put into its arrays (a library call that leaves an input array altered -
+answered or refused - shows as a wrong answer of the next call and as a disagreement with the model).
 Cases: the corpus first (corpus/C15: diamond, M shape, notched square, collinear / repeated vertices, bow-tie,
 pentagram - each in every rotation, reversed and closed); polygon families random, star-shaped, self-intersecting,
 lattice (horizontal, vertical, collinear edges, repeated vertices), rectilinear, comb (many extrema on one level),
@@ -20,18 +33,23 @@ convex, short-edge (nearly closed rings, slivers), degenerate (1-2 vertices, zer
 affine placement with offset-to-size ratios up to ~1e6; open or closed vertex list, either orientation, any
 starting vertex; points random inside and outside the box, level with vertices, sharing an abscissa with
 vertices, mid-points of vertex pairs, on vertices / edges / box border, within and just beyond the tolerance of
-an edge, half-integer lattice points; default and other tolerances, pre-filled answer vectors, integer-typed
-vertex arrays, nprint > 0, point sets of 1000-4097 points; grids 1..12 x 1..12 (now and then up to 45 x 45) with
-polygons aligned to cell corners / centres or placed freely (inside, overlapping, covering, beyond the grid);
+an edge, half-integer lattice points; default and other tolerances (0, negative, 1e-12 .. 1.5, inf, NaN), pre-filled
+answer vectors, integer-typed vertex arrays, nprint > 0, point sets of 1000-4097 points; grids 1..12 x 1..12 (now and
+then up to 45 x 45) with polygons aligned to cell corners / centres or placed freely (inside, overlapping, covering,
+beyond the grid);
 state histories on ONE Grid object and its clones (corpus/C15/history.json first, then random): 2-4 queries with
 re-assignment of xllcorner / yllcorner / cellsize or clone()+re-assignment in between, grid and polygon translated
-together, legitimate reuse with another polygon - every query judged (model and oracle) on the geometry the
-object has at that moment; state histories on one set of argument arrays of points_inside_polygon (corpus first, then random): 2-4 calls with
-the polygon / points array edited in place (same size), the returned vector scribbled on, the caller's `inside`
-buffer pre-filled and re-used, other arguments or another tolerance in between; Grid histories also edit the
-returned table and the polygon array in place and go through deepcopy / pickle; a malformed stream exercising the
-wrapper's guards by name and in combination (answer vector of another dtype / length, points or polygon without
-exactly two columns, empty polygon, no points); the exact model is also evaluated along rays aimed at vertices.
+together, legitimate reuse with another polygon, REFUSED queries (empty polygon, polygon array of 1 or 3 columns)
+followed by the same or another polygon - every query judged (model and oracle) on the geometry the
+object has at that moment; state histories on one set of argument arrays of points_inside_polygon (corpus first,
+then random): 2-8 calls with the polygon / points array edited in place (same size) or replaced, ANOTHER polygon laid
+over the same points (one set of points, several polygons), the returned vector scribbled on, the caller's `inside`
+buffer pre-filled and re-used, other arguments or another tolerance in between, and REFUSED calls (answer vector of
+another length / dtype / a strided view) at any position, the first included, followed by calls that re-use both
+arrays, one of them, or re-fill one in place; Grid histories also edit the returned table and the polygon array in
+place and go through deepcopy / pickle; a malformed stream exercising the wrapper's guards by name and in combination
+(nprint outside int32, answer vector of another dtype / length, points or polygon without exactly two columns, empty
+polygon, no points); the exact model is also evaluated along rays aimed at vertices.
 A case is non-trivial when the polygon has >= 3 vertices and the code answers 1 for some points and 0 for others.
 """
 import json
@@ -127,6 +145,25 @@ class ExactPolygon:
                 return None                            # through a vertex
             count += 1
         return count % 2
+
+
+def _orient(a, b, c):
+    v = (b[0] - a[0]) * (c[1] - a[1]) - (b[1] - a[1]) * (c[0] - a[0])
+    return (v > 0) - (v < 0)
+
+
+def _on_seg(a, b, c):
+    """c collinear with a b: is it on the closed segment?"""
+    return min(a[0], b[0]) <= c[0] <= max(a[0], b[0]) and min(a[1], b[1]) <= c[1] <= max(a[1], b[1])
+
+
+def segments_meet(p, q, a, b):
+    """exact (integers): do the closed segments p q and a b have a point in common?"""
+    o1, o2, o3, o4 = _orient(p, q, a), _orient(p, q, b), _orient(a, b, p), _orient(a, b, q)
+    if o1 != o2 and o3 != o4:
+        return True
+    return ((o1 == 0 and _on_seg(p, q, a)) or (o2 == 0 and _on_seg(p, q, b)) or
+            (o3 == 0 and _on_seg(a, b, p)) or (o4 == 0 and _on_seg(a, b, q)))
 
 
 DIRECTIONS = [(u, v) for u in range(-7, 8) for v in range(-7, 8)
@@ -347,6 +384,8 @@ def body(ctx):
     lean = ctx.lean
     reqs, impls, cases = [], [], []          # bit-for-bit correspondence (Float model)
     qreqs, qinfo = [], []                     # exact model + specification on far points
+    hreqs, hexp, hcases = [], [], []          # whole histories through the stateful models (piphist / gridhist)
+    rreqs, rinfo = [], []                     # the model in simulated binary64 arithmetic + decided theorem hypotheses
 
     def add(req, impl, case):
         reqs.append(req)
@@ -392,6 +431,8 @@ def body(ctx):
                              "emptyPolygon" if "zero-size array" in msg else "other:" + msg[:60])
         if isinstance(e, AssertionError):
             return "err shapeAssert"
+        if isinstance(e, OverflowError):
+            return "err nprintRange"
         return f"err other:{type(e).__name__}"
 
     def far_mask(ep, poly, npts_, tolrel=RELTOL):
@@ -432,6 +473,7 @@ def body(ctx):
 
     # ---------------------------------------------------------------- points_inside_polygon
     nq = ctx.scale(2000, 5000)            # polygons also evaluated exactly (Rat model + specification)
+    nr = ctx.scale(700, 2500)             # polygons also run in simulated binary64 arithmetic (Rd Rat rnd53)
     state = {"n": 0}
 
     def run_case(fam, poly, closed, pts, kinds, atol, mode, allow_invariance=True):
@@ -458,8 +500,21 @@ def body(ctx):
         far, exact = oracle_points("points_inside_polygon", fam, poly, pts, kinds, got, atol, ep=ep)
         if far is not None:
             ctx.hist["oracle_points_judged"] = ctx.hist.get("oracle_points_judged", 0) + sum(1 for e in exact if e is not None)
+            # evenOdd_constant_on_free_segment on the real code: two far points joined by a segment that has no point in
+            # common with any edge (exact integer test) must get the same answer
+            idx = [i for i in range(len(pts)) if far[i]]
+            for _ in range(6 if len(idx) >= 2 else 0):
+                i, j = rng.sample(idx, 2)
+                if any(segments_meet(ep.P[i], ep.P[j], a, b) for a, b in ep.E):
+                    continue
+                ctx.hist["free_segment_pairs_judged"] = ctx.hist.get("free_segment_pairs_judged", 0) + 1
+                if int(got[i]) != int(got[j]):
+                    ctx.finding("points_inside_polygon/free_segment/answers_differ",
+                                "two points farther than 1e-6 x size from every edge, joined by a segment that misses the boundary, get different answers",
+                                {"family": fam, "polygon": poly, "point": pts[i], "point2": pts[j], "atol": atol,
+                                 "code": int(got[i]), "code2": int(got[j])})
         # exact instance of the model + specification: compared on points far (Chebyshev > atol) from the boundary
-        if ip < nq and len(poly) >= 1:
+        if ip < nq and len(poly) >= 1 and math.isfinite(atol):
             tol = max(Fraction(atol) * 2, Fraction(RELTOL) * Fraction(ep.size, ep.den)) * ep.den
             t2 = tol * tol
             farq = [ep.dist2_gt(P, t2.numerator, t2.denominator) for P in ep.P]
@@ -478,7 +533,12 @@ def body(ctx):
                 di = rng.choice(DIRECTIONS + [(1, 0), (-1, 0), (0, 1), (0, -1)])
             qreqs.append(f"pipq {C.f2h(atol)} {pm} {tm} {di[0]} {di[1]}")
             qinfo.append(({**case, "direction": list(di)}, bits(got), farq))
-        # invariances on the real code (a subset of the polygons)
+        # the model in SIMULATED binary64 arithmetic (every + - * / rounded to 53 bits by `rnd53`, exact rationals
+        # underneath) and the decided hypotheses of the rounding theorems (rounded_inside_eq_evenOdd via
+        # sim53_inside_eq_evenOdd, rounded_rectilinear_exact via sim53_rectilinear_exact)
+        if ip < nr and len(poly) >= 1 and math.isfinite(atol):
+            rreqs.append(f"pipr {C.f2h(atol)} {pm} {tm}")
+            rinfo.append((case, bits(got), far, exact))
         if allow_invariance and in_quantifier(poly, atol) and far is not None and rng.random() < 0.35:
             n = len(poly)
             tr = rng.choice(["rotate", "reverse", "close", "translate", "scale"])
@@ -541,7 +601,10 @@ def body(ctx):
     for _ip in range(npoly):
         fam, poly, closed = gen_polygon(rng, nmax if rng.random() < 0.5 else min(nmax, 8))
         pts, kinds = gen_points(rng, poly, npts)
-        atol = ATOL if rng.random() < 0.75 else rng.choice([0.0, 1e-3, 0.3, 1.5, 1e-12])
+        # other tolerances: the guards of the kernel at work (0.3, 1.5 against lattice steps of 1), switched off (0, negative:
+        # the excluded side of the hypothesis 0 <= atol, see far_needs_atol_nonneg), not a number / infinite (every
+        # comparison with NaN is false, in the kernel and in the Float instance of the model alike)
+        atol = ATOL if rng.random() < 0.75 else rng.choice([0.0, 1e-3, 0.3, 1.5, 1e-12, -1e-3, -2.0, math.inf, math.nan])
         mode = rng.choice(["default", "default", "atol", "prefilled", "int_input"] + (["nprint"] if _ip % 40 == 0 else []))
         run_case(fam, poly, closed, pts, kinds, atol, mode)
     # a few large point sets (answers must not depend on how many points are asked at once)
@@ -555,8 +618,9 @@ def body(ctx):
         fam, poly, _c = gen_polygon(rng, 6)
         pts, _k = gen_points(rng, poly, rng.randint(0, 5))
         kind = rng.choice(["empty_polygon", "inside_length", "inside_dtype", "points_width", "polygon_width",
-                           "several", "no_points", "well_formed"])
+                           "several", "several", "no_points", "well_formed", "nprint_range"])
         pw, tw, ilen, i32 = 2, 2, -1, 1
+        nprint = rng.choice([0, 0, -3, -2 ** 31])            # in range and silent (logging starts at nprint > 0)
         use_poly = poly
         if kind == "empty_polygon":
             use_poly = []
@@ -568,8 +632,12 @@ def body(ctx):
             tw = rng.choice([1, 3, 4])
         elif kind == "polygon_width":
             pw = rng.choice([1, 3])
+        elif kind == "nprint_range":
+            nprint = rng.choice([2 ** 31, -2 ** 31 - 1, 2 ** 40, -10 ** 12])
         elif kind == "several":
             # several guards at once: the FIRST one in the code's order decides
+            if rng.random() < 0.3:
+                nprint = rng.choice([2 ** 31, -2 ** 31 - 1, 2 ** 63])
             if rng.random() < 0.5:
                 ilen, i32 = rng.choice([len(pts), len(pts) + 2]), rng.choice([0, 1])
             if rng.random() < 0.5:
@@ -596,7 +664,7 @@ def body(ctx):
         if ilen >= 0:
             kw["inside"] = np.ones(ilen, dtype=np.int32 if i32 else rng.choice([np.int64, np.float64, bool, np.uint8]))
         try:
-            r = gutils.points_inside_polygon(pa, ya, **kw)
+            r = gutils.points_inside_polygon(pa, ya, nprint=nprint, **kw)
             impl = "ok " + bits(r)
         except Exception as e:  # noqa
             impl = err_name(e)
@@ -606,12 +674,12 @@ def body(ctx):
         # which exception type reports a wrong shape / an empty polygon, and which of the two is reported first, is
         # incidental (moving a guard between Cython and Python changes it): both are compared as "rejected"; the
         # dtype and length guards of the caller's answer vector are compared by name and must come first
-        if impl.startswith("err") and impl not in ("err insideDtype", "err insideLength"):
+        if impl.startswith("err") and impl not in ("err insideDtype", "err insideLength", "err nprintRange"):
             impl = "err rejected"
-        add(f"pipcall {C.f2h(ATOL)} {pw} {C.fmat(m_poly)} {tw} {C.fmat(m_pts)} {ilen} {i32}", impl,
+        add(f"pipcalln {nprint} {C.f2h(ATOL)} {pw} {C.fmat(m_poly)} {tw} {C.fmat(m_pts)} {ilen} {i32}", impl,
             {"malformed": kind, "points": m_pts, "polygon": m_poly, "points_width": tw, "polygon_width": pw,
-             "inside_len": ilen, "inside_int32": bool(i32)})
-        ctx.count(("malformed", kind, pw, tw, ilen, i32, repr(m_poly), repr(m_pts)), False,
+             "inside_len": ilen, "inside_int32": bool(i32), "nprint": nprint})
+        ctx.count(("malformed", kind, pw, tw, ilen, i32, nprint, repr(m_poly), repr(m_pts)), False,
                   "malformed:" + kind + ":" + impl.split()[1 if impl.startswith("err") else 0])
 
     # ---------------------------------------------------------------- histories on one set of arguments
@@ -621,8 +689,27 @@ def body(ctx):
     #   {"op": "call", "inside": "buffer" | "none"}      {"op": "polygon", "values": [...]}  (in place when same shape)
     #   {"op": "points", "values": [...]}  (in place when same shape)   {"op": "scribble", "value": v}  {"op": "atol", "value": a}
     def run_pip_history(steps, label):
-        st = {"P": None, "Y": None, "buf": None, "atol": ATOL, "last": None, "after": "fresh", "ncalls": 0}
+        # "Pv" / "Yv": the coordinates the CALLER put into its arrays (the arrays "P" / "Y" must still hold them after
+        # any call, answered or rejected: the library has no business writing into its inputs); every answer is judged
+        # - model and oracle - on the caller's values, so a call that leaves the arrays altered shows in the next answer
+        st = {"P": None, "Y": None, "Pv": None, "Yv": None, "buf": None, "atol": ATOL, "last": None, "after": "fresh",
+              "ncalls": 0, "rejected": False, "altered": False}
         done = []
+        mops, mexp = [], []          # the same history for the stateful model (request `piphist`) and what the code did
+
+        def check_unaltered(what_call):
+            if st["altered"]:
+                return
+            for key, name in (("P", "points"), ("Y", "polygon")):
+                want = np.array(st[key + "v"], dtype=np.float64).reshape(-1, 2)
+                if st[key].shape != want.shape or st[key].tobytes() != want.tobytes():
+                    st["altered"] = True
+                    ctx.disagree(f"C15: the caller's {name} array was modified by {what_call} (the model reads its arguments only)",
+                                 {"family": label, "array": name, "caller_values": st[key + "v"][:6],
+                                  "array_now": [list(map(float, q)) for q in st[key][:6]],
+                                  "history": [dict(d) for d in done]})
+                    return
+
         for stp in steps:
             done.append(stp)
             op = stp["op"]
@@ -635,62 +722,122 @@ def body(ctx):
                 else:
                     st[key] = new
                     st["after"] = "new_" + op
+                st[key + "v"] = [tuple(map(float, q)) for q in new]
+                mops.append(("Y:" if op == "polygon" else "P:") + C.fmat(st[key + "v"]))
                 if op == "points" and st["buf"] is not None and len(st["buf"]) != len(new):
                     st["buf"] = None
+                    mops.append("D")
             elif op == "scribble":
                 if st["last"] is not None:
                     try:
                         st["last"][:] = stp["value"]
+                        if st["last"] is st["buf"]:
+                            mops.append(f"S:{int(stp['value'])}")      # the returned vector IS the caller's buffer
                     except Exception:  # noqa  (read-only result: nothing to scribble on)
                         pass
                     st["after"] = "result_scribbled"
             elif op == "atol":
                 st["atol"] = float(stp["value"])
                 st["after"] = "other_atol"
+                mops.append("A:" + C.f2h(st["atol"]))
             else:
                 kw = {}
+                how = stp.get("inside", "none")
                 if st["atol"] != ATOL or stp.get("explicit_atol"):
                     kw["atol"] = st["atol"]
-                if stp.get("inside") == "buffer":
-                    if st["buf"] is None or len(st["buf"]) != len(st["P"]):
-                        st["buf"] = np.full(len(st["P"]), rng.choice([0, 1, 5]), dtype=np.int32)
+                npt = len(st["P"])
+                if how == "buffer":
+                    if st["buf"] is None or len(st["buf"]) != npt:
+                        st["buf"] = np.full(npt, rng.choice([0, 1, 5]), dtype=np.int32)
+                        mops.append("B:" + C.ilist(st["buf"]))
                     kw["inside"] = st["buf"]
+                elif how == "bad_length":
+                    # a call the wrapper must refuse: answer vector of another length ...
+                    blen = max(npt + int(stp.get("delta", -1)), 0)
+                    kw["inside"] = np.zeros(blen if blen != npt else npt + 1, dtype=np.int32)
+                elif how == "bad_dtype":
+                    # ... or of another dtype
+                    kw["inside"] = np.zeros(npt, dtype={"int64": np.int64, "float64": np.float64, "bool": bool,
+                                                        "uint8": np.uint8}[stp.get("dtype", "int64")])
+                elif how == "noncontiguous":
+                    # an int32 view of the right length with a stride (refused by the extension layer, after the
+                    # Python wrapper has done its part); whether it is refused is not constrained - if it is
+                    # answered, the answers are judged like any other
+                    kw["inside"] = np.full(2 * npt, 3, dtype=np.int32)[::2]
+                pts, poly = st["Pv"], st["Yv"]
                 try:
                     r = gutils.points_inside_polygon(st["P"], st["Y"], **kw)
                     impl = "ok " + bits(r)
                 except Exception as e:  # noqa
                     r, impl = None, err_name(e)
                 st["last"] = r
-                pts = [tuple(map(float, q)) for q in st["P"]]
-                poly = [tuple(map(float, q)) for q in st["Y"]]
-                tag = "points_inside_polygon" if st["ncalls"] == 0 else "points_inside_polygon/history/after_" + st["after"]
-                if "inside" in kw:
+                if how != "noncontiguous" or r is not None:
+                    mops.append({"none": "Cn", "buffer": "Cb"}.get(how) or
+                                f"Cf:{0 if how == 'bad_dtype' else 1}:{len(kw['inside'])}")
+                    mexp.append(impl.replace(" ", ":", 1))
+                before = ("rejected_call+" if st["rejected"] else "") + st["after"]
+                tag = "points_inside_polygon" if st["ncalls"] == 0 else "points_inside_polygon/history/after_" + before
+                if how == "buffer":
                     tag += "+buffer" if st["ncalls"] else ""
                 case = {"family": label, "polygon": poly, "points": pts, "atol": st["atol"],
                         "history": [dict(d) for d in done]}
-                add(f"pipf {C.f2h(st['atol'])} {C.fmat(poly)} {C.fmat(pts)} {len(kw['inside']) if 'inside' in kw else -1}",
-                    impl, case)
+                if how in ("bad_length", "bad_dtype"):
+                    add(f"pipcall {C.f2h(st['atol'])} 2 {C.fmat(poly)} 2 {C.fmat(pts)} {len(kw['inside'])} {1 if how == 'bad_length' else 0}",
+                        impl, case)
+                elif how != "noncontiguous" or r is not None:
+                    add(f"pipf {C.f2h(st['atol'])} {C.fmat(poly)} {C.fmat(pts)} {len(kw['inside']) if 'inside' in kw else -1}",
+                        impl, case)
                 ctx.count(("piph", st["ncalls"], repr(done)), r is not None and 0 < int(np.sum(r)) < len(pts),
-                          "pip_history:" + (st["after"] if st["ncalls"] else "first"))
+                          "pip_history:" + (before if st["ncalls"] else "first") + ("" if r is not None else ":refused"))
+                check_unaltered("a refused call" if r is None else "a call")
                 if r is not None:
                     far, exact = oracle_points(tag, label, poly, pts, ["point"] * len(pts), r, st["atol"])
                     # re-state the finding with the history attached (the oracle's case has no history)
                     for f_ in ctx.findings:
                         if f_["signature"].startswith(tag + "/") and isinstance(f_["case"], dict) and "history" not in f_["case"]:
                             f_["case"]["history"] = [dict(d) for d in done]
+                    st["rejected"] = False
+                    st["after"] = "call"
+                else:
+                    # a refused call is an event of the history: what follows is judged as coming after it
+                    st["rejected"] = True
+                    st["after"] = "nothing"
                 st["ncalls"] += 1
-                st["after"] = "call"
+        # the whole history through the STATEFUL model (pipRun: caller's arrays, tolerance, answer buffer) and the
+        # memoryless specification it is proved to refine (pipAbsRun): every outcome and the buffer's final content
+        hreqs.append(f"piphist {C.f2h(ATOL)} [] [] - " + " ".join(mops))
+        hexp.append(("|".join(mexp) if mexp else "-") + " " + (C.ilist(st["buf"]) if st["buf"] is not None else "-")
+                    + " " + ("|".join(mexp) if mexp else "-"))
+        hcases.append({"family": label, "history": [dict(d) for d in done]})
 
     def gen_pip_history():
         nmax_ = ctx.scale(10, 16)
         fam, poly, _c = gen_polygon(rng, nmax_)
         npts_ = rng.choice([8, 20, 40])
         pts, _k = gen_points(rng, poly, npts_)
-        steps = [{"op": "polygon", "values": poly}, {"op": "points", "values": pts},
-                 {"op": "call", "inside": rng.choice(["none", "buffer"])}]
+        def refused_call():
+            how = rng.choice(["bad_length", "bad_length", "bad_dtype", "noncontiguous"])
+            stp = {"op": "call", "inside": how}
+            if how == "bad_length":
+                stp["delta"] = rng.choice([-1, 1, 2, len(pts)])
+            elif how == "bad_dtype":
+                stp["dtype"] = rng.choice(["int64", "float64", "bool", "uint8"])
+            return stp
+
+        steps = [{"op": "polygon", "values": poly}, {"op": "points", "values": pts}]
+        if rng.random() < 0.1:
+            steps.append(refused_call())           # the very first call on these arrays is a refused one
+        steps.append({"op": "call", "inside": rng.choice(["none", "buffer"])})
         for _ in range(rng.randint(1, 3)):
             act = rng.choice(["polygon_inplace", "polygon_inplace", "points_inplace", "scribble", "scribble",
-                              "new_polygon", "new_points", "atol", "same"])
+                              "new_polygon", "other_polygon", "new_points", "atol", "same", "refused", "refused",
+                              "refused"])
+            if act == "refused":
+                # fault path: a call the wrapper refuses (answer vector of the wrong length / dtype / layout), then the
+                # caller carries on with the same arrays, with one of them replaced / re-filled, or with both as they are
+                steps.append(refused_call())
+                act = rng.choice(["other_polygon", "new_points", "new_points", "polygon_inplace", "points_inplace", "same",
+                                  "other_polygon", "new_polygon"])
             if act == "polygon_inplace":
                 # same number of vertices, other content: shuffled, one vertex moved, translated, or a fresh
                 # polygon of the same family cut / padded to the same length
@@ -718,6 +865,17 @@ def body(ctx):
                 steps.append({"op": "scribble", "value": rng.choice([1, 1, 7, -1])})
             elif act == "new_polygon":
                 fam, poly, _c = gen_polygon(rng, nmax_)
+                steps.append({"op": "polygon", "values": poly, "inplace": False})
+            elif act == "other_polygon":
+                # one set of points, several polygons: another polygon (a new array) laid over the place of the
+                # current one, so that the same points are again partly inside and partly outside
+                fam, q2, _c = gen_polygon(rng, nmax_)
+                x0, y0 = min(p[0] for p in poly), min(p[1] for p in poly)
+                w = max(max(p[0] for p in poly) - x0, max(p[1] for p in poly) - y0)
+                u0, v0 = min(p[0] for p in q2), min(p[1] for p in q2)
+                wn = max(max(p[0] for p in q2) - u0, max(p[1] for p in q2) - v0)
+                f_ = (w / wn) if (w > 0 and wn > 0) else 1.0
+                poly = [(x0 + (x - u0) * f_, y0 + (y - v0) * f_) for x, y in q2]
                 steps.append({"op": "polygon", "values": poly, "inplace": False})
             elif act == "new_points":
                 pts, _k = gen_points(rng, poly, rng.choice([len(pts), len(pts), 5, 33]))
@@ -761,6 +919,8 @@ def body(ctx):
             poly = [(ox + (x - min(xs)) * f, oy + (y - min(ys)) * f) for x, y in poly]
         return fam, kind, poly
 
+    last_outcome = [None]
+
     def query_cells(gr, geom, poly, fam, kind, user_atol, tag, extra, pa=None):
         """one call of cells_inside_polygon on the Grid object `gr` whose CURRENT geometry is `geom`:
         correspondence request (model evaluated on the current geometry) + independent oracle"""
@@ -775,6 +935,8 @@ def body(ctx):
         except Exception as e:  # noqa
             df, cells = None, None
             impl = f"err other:{type(e).__name__}"
+        last_outcome[0] = ("ok/" + C.ilist(sorted(cells)) + "/[" + ",".join(f"{C.f2h(x)}:{C.f2h(y)}:{c}" for c, x, y in rows) + "]"
+                           if cells is not None else "err/" + impl.split(None, 1)[1])
         case = {"grid": [nrows, ncols, xll, yll, csz], "polygon": poly, "family": fam, "atol_argument": user_atol, **extra}
         add(f"cells {nrows} {ncols} {C.f2h(xll)} {C.f2h(yll)} {C.f2h(csz)} {C.f2h(ATOL)} {C.fmat(poly)}", impl, case)
         ctx.count(("cells", tag, nrows, ncols, xll, yll, csz, repr(poly), repr(extra)),
@@ -856,10 +1018,12 @@ def body(ctx):
         dfs = [None]         # the table last returned by each object
         done = []
         last = ["fresh"]
+        mops, mexp = [], []          # the same history for the stateful model (request `gridhist`)
         for st in steps:
             done.append(st)
             if st["op"] in ("clone", "roundtrip"):
                 j = st["of"]
+                mops.append(f"K:{j}")
                 how = st.get("how", "clone")
                 objs.append(objs[j].clone() if how == "clone" else copy.deepcopy(objs[j]) if how == "deepcopy"
                             else pickle.loads(pickle.dumps(objs[j])))
@@ -873,8 +1037,30 @@ def body(ctx):
                 for k, v in st["attrs"].items():
                     setattr(objs[i], k, v)
                     g[{"xllcorner": 2, "yllcorner": 3, "cellsize": 4}[k]] = float(v)
+                    mops.append(f"{ {'xllcorner': 'X', 'yllcorner': 'Yl', 'cellsize': 'Z'}[k] }:{i}:{C.f2h(float(v))}")
                 geoms[i] = tuple(g)
                 last[i] = (last[i] + "+" if last[i] in ("clone", "deepcopy", "pickle") else "") + "set_" + "_".join(sorted(st["attrs"]))
+            elif st["op"] == "badquery":
+                # fault path: a query the object must refuse (empty polygon, polygon array without exactly two columns);
+                # whatever follows on the same object is judged as usual
+                i = st["on"]
+                kind = st["kind"]
+                base = np.array(st["polygon"], dtype=np.float64).reshape(-1, 2)
+                bad = (base[:0] if kind == "empty" else np.ascontiguousarray(base[:, :1]) if kind == "width1"
+                       else np.ascontiguousarray(np.hstack([base, np.ones((len(base), 1))])))
+                try:
+                    objs[i].cells_inside_polygon(bad)
+                    refused = False
+                except Exception:  # noqa
+                    refused = True
+                add(f"cells {geoms[i][0]} {geoms[i][1]} {C.f2h(geoms[i][2])} {C.f2h(geoms[i][3])} {C.f2h(geoms[i][4])} {C.f2h(ATOL)} []",
+                    "err rejected" if refused else "ok accepted",
+                    {"grid": list(geoms[i]), "bad_polygon": kind, "history": [dict(d) for d in done]})
+                ctx.count(("cellsbad", repr(done)), False, "cells_history:refused_query:" + kind)
+                mops.append(f"Q:{i}:{ {'empty': 2, 'width1': 1, 'width3': 3}[kind] }:" +
+                            ("[]" if kind == "empty" else C.fmat([tuple(map(float, q)) for q in base])))
+                mexp.append("err/rejected" if refused else "ok/accepted")
+                last[i] = "refused_query" if last[i] in ("fresh", "query") else last[i] + "+refused_query"
             elif st["op"] == "scribble":
                 i = st["on"]
                 if dfs[i] is not None:
@@ -900,8 +1086,19 @@ def body(ctx):
                 tag = "cells_inside_polygon" if nq_before == 0 else "cells_inside_polygon/history/after_" + last[i]
                 dfs[i] = query_cells(objs[i], geoms[i], poly, st.get("family", label), st.get("kind", "history"), None, tag,
                                      {"grid0": list(grid0), "history": [dict(d) for d in done]}, pa=arrs[i])
+                mops.append(f"Q:{i}:2:{C.fmat(poly)}")
+                mexp.append(last_outcome[0])
+                if arrs[i].tobytes() != new.tobytes():
+                    ctx.disagree("C15: the caller's polygon array was modified by cells_inside_polygon (the model reads its arguments only)",
+                                 {"grid": list(geoms[i]), "caller_values": poly[:6],
+                                  "array_now": [list(map(float, q)) for q in arrs[i][:6]], "history": [dict(d) for d in done]})
+                    arrs[i] = new.copy()
                 ctx.hist["history:" + last[i]] = ctx.hist.get("history:" + last[i], 0) + 1
                 last[i] = "query"
+        # the whole history through the STATEFUL model (gridRun: list of live objects, clones appended)
+        hreqs.append(f"gridhist {C.f2h(ATOL)} {nrows} {ncols} {C.f2h(xll)} {C.f2h(yll)} {C.f2h(csz)} " + " ".join(mops))
+        hexp.append(("|".join(mexp) if mexp else "-") + f" {len(objs)}")
+        hcases.append({"family": label, "grid0": list(grid0), "history": [dict(d) for d in done]})
 
     def gen_history():
         ncols, nrows = rng.randint(1, 10), rng.randint(1, 10)
@@ -924,7 +1121,16 @@ def body(ctx):
         for _ in range(rng.randint(1, 3)):
             i = rng.randrange(len(geoms))
             act = rng.choice(["set", "set", "clone_set", "clone_set", "together", "clone_together", "same", "clone_same",
-                              "scribble", "inplace", "inplace", "clone_roundtrip_set"])
+                              "scribble", "inplace", "inplace", "clone_roundtrip_set", "refused"])
+            if act == "refused":
+                # a query the object refuses, then the same polygon again or another one
+                steps.append({"op": "badquery", "on": i, "kind": rng.choice(["empty", "width1", "width3"]),
+                              "polygon": [list(p) for p in (polys[i] or [(0.0, 0.0), (1.0, 0.0), (0.0, 1.0)])]})
+                if rng.random() < 0.6 and polys[i] is not None:
+                    query(i, polys[i])
+                else:
+                    query(i)
+                continue
             if act == "scribble":
                 # the caller edits the returned table in place, then asks again (same or another polygon)
                 steps.append({"op": "scribble", "on": i})
@@ -1007,7 +1213,15 @@ def body(ctx):
     for req, impl, rep, case in zip(reqs, impls, replies, cases):
         if req.startswith("pipcall") and rep in ("err shapeAssert", "err emptyPolygon"):
             rep = "err rejected"
+        if req.startswith("cells") and impl in ("err rejected", "ok accepted") and rep.startswith("err"):
+            rep = "err rejected"           # a refused query: which guard refuses it is incidental
         ctx.compare("C15", {"request": req[:2000], **case}, impl, rep)
+    for req, exp, rep, case in zip(hreqs, hexp, lean.ask(hreqs), hcases):
+        # a refused Grid query: which guard refuses it (shape assertion, empty polygon) is incidental
+        rep = "|".join("err/rejected" if o in ("err/shapeAssert", "err/emptyPolygon") and "err/rejected" in exp else o
+                       for o in rep.split(" ")[0].split("|")) + rep[len(rep.split(" ")[0]):] if req.startswith("gridhist") else rep
+        ctx.compare("C15 history (stateful model)", {"request": req[:3000], **case}, exp, rep)
+        ctx.hist["histories_through_stateful_model"] = ctx.hist.get("histories_through_stateful_model", 0) + 1
     qrep = lean.ask(qreqs)
     njudged = 0
     for req, rep, (case, gotbits, farq) in zip(qreqs, qrep, qinfo):
@@ -1025,10 +1239,44 @@ def body(ctx):
                              {"point": case["points"][i], "code": gotbits[i], "model_rat": mq[i], "evenOdd": eo[i],
                               "evenOddLeft": eol[i], "evenOddLe": eole[i], "evenOddDir": eod[i], **case})
     ctx.hist["exact_model_points_judged"] = njudged
+    nsim = napply = ncovered = noracle = nrect = 0
+    for req, rep, (case, gotbits, far, exact) in zip(rreqs, lean.ask(rreqs), rinfo):
+        parts = rep.split()
+        if len(parts) != 8 or parts[0] != "ok":
+            ctx.disagree("C15: simulated-binary64 model gives no answer", {"request": req[:2000], "model": rep, **case})
+            continue
+        _, rb, sep, gap, rect, eo, eole, absok = parts
+        if absok != "1":
+            # instance of rounded_abscissa_error at rnd53: cannot fail unless model and theorem have drifted apart
+            ctx.disagree("C15: |xintersR rnd53 - xint| exceeds u53 (|p1x| + 8 |p2x - p1x|) on a straddling edge", {"request": req[:2000], **case})
+        for i in range(len(gotbits)):
+            nsim += 1
+            if rb[i] != gotbits[i]:
+                ctx.disagree("C15: the model run in simulated binary64 arithmetic (rnd53) differs from the real kernel",
+                             {"point": case["points"][i], "code": gotbits[i], "simulated": rb[i], **case})
+            applies = sep == "1" and gap[i] == "1"
+            if applies:
+                napply += 1
+                if not (rb[i] == eo[i] == gotbits[i]):
+                    ctx.disagree("C15: hypotheses of rounded_inside_eq_evenOdd hold (decided) but simulated kernel, real kernel and exact even-odd rule differ",
+                                 {"point": case["points"][i], "code": gotbits[i], "simulated": rb[i], "evenOdd": eo[i], **case})
+            if rect == "1":
+                nrect += 1
+                if not (rb[i] == eole[i] == gotbits[i]):
+                    ctx.disagree("C15: rectilinear polygon with binary64 vertices: simulated kernel, real kernel and exact closed-ray rule differ",
+                                 {"point": case["points"][i], "code": gotbits[i], "simulated": rb[i], "evenOddLe": eole[i], **case})
+            if far is not None and far[i] and exact[i] is not None:
+                noracle += 1
+                ncovered += 1 if applies else 0
+    ctx.hist["simulated_binary64_points"] = nsim
+    ctx.hist["rounding_theorem_hypotheses_hold_points"] = napply
+    ctx.hist["rectilinear_exactness_points"] = nrect
+    ctx.hist["oracle_judged_points_in_simulated_stream"] = noracle
+    ctx.hist["oracle_judged_points_covered_by_rounding_theorem"] = ncovered
     ctx.extra["rule"] = __doc__.split("Cases:")[1].strip()
     ctx.assumptions += [
-        "IEEE rounding is executed (Float instance, bit-equal to the kernel), not proved; theorems are over ordered fields",
-        "NaN / infinite coordinates are outside the model and the generators",
+        "floating point: rounded_inside_eq_evenOdd / rounded_rectilinear_exact are proved for every arithmetic whose + - * / results have relative error <= u <= 1/100 (resp. that keeps 0 and the vertex abscissae); that IEEE binary64 meets this standard model with u = 2^-53 (no overflow / underflow) is classical and not proved here - the simulated binary64 instance (rnd53, proved to meet it) is compared with the real kernel at every generated point",
+        "NaN / infinite coordinates are outside the model and the generators (NaN / infinite / negative TOLERANCES are generated and compared bit for bit with the Float instance)",
         "oracle applies to polygons with >= 3 vertices, non-zero coordinate steps >= 1e-6, default atol, and to points at exact distance > 1e-6 x size from every edge",
         "Grid.cells_inside_polygon does not forward its atol argument (the default 1e-8 reaches the kernel); modelled as such",
     ]
@@ -1038,4 +1286,5 @@ def main(tier, replay=None):
     return C.run_check(PID, tier, body, needs_native=True, replay=replay,
                        trusted=["numpy astype/min/max/boolean indexing and pandas.DataFrame construction (external, compared by result)",
                                 "Grid.cell2coord kernel (cell centres recomputed with plain arithmetic and compared)",
-                                "not formalised: a topological (Jordan-curve) definition of 'interior'; the even-odd rule is the crossing parity of a ray with the half-open vertex rule, proved independent of the ray direction"])
+                                "IEEE binary64 arithmetic meets the standard model |fl(x op y) - (x op y)| <= 2^-53 |x op y| barring overflow / underflow (classical; the proved simulation rnd53 is compared with the real kernel on every run)",
+                                "not formalised: the Jordan curve theorem; the even-odd rule is the crossing parity of a ray with the half-open vertex rule, proved independent of the ray direction, constant along every path that misses the boundary and 0 wherever such a path leaves the bounding box"])
